@@ -16,6 +16,7 @@ CELLML10 = "http://www.cellml.org/cellml/1.0#"
 MATHML = "http://www.w3.org/1998/Math/MathML"
 XLINK = "http://www.w3.org/1999/xlink"
 MAXLEN = 64 * 1024
+DUP_CAP = 5000     # largest multiplicity of m_subtree_duplicate (the quick tier of C01 lowers it: hundreds of imports validate slowly)
 
 for _p, _u in (("", CELLML2), ("mathml", MATHML), ("xlink", XLINK)):
     try:
@@ -169,7 +170,7 @@ def m_subtree_duplicate(root, rng):
     p = pm[e]
     size = max(1, len(ET.tostring(e)))
     n = rng.choice([1, 1, 2, 3, 10, 100, 1000, 5000])
-    n = max(1, min(n, (MAXLEN // 2) // size))
+    n = max(1, min(n, (MAXLEN // 2) // size, DUP_CAP))
     idx = list(p).index(e)
     for i in range(n):
         p.insert(idx + 1, _copy(e))
